@@ -9,6 +9,7 @@ import (
 
 	"golang.org/x/tools/go/ssa"
 
+	"verif/checker/internal/absint"
 	"verif/checker/internal/core"
 	"verif/checker/internal/load"
 	"verif/checker/internal/sx"
@@ -228,7 +229,7 @@ var rStdIdentity = &Rule{
 			})
 		}
 		c.Ob("all hand-written functions", token.NoPos, true, fmt.Sprintf("no call of stdlib errors.Is/As/Unwrap (%d static calls inspected)", n))
-		c.Min("static calls inspected", n, 1500)
+		c.Min("static calls inspected", n, 900)
 	},
 }
 
@@ -321,4 +322,611 @@ func isVarargsOfNonAppend(ia *ssa.IndexAddr) bool {
 		}
 	}
 	return true
+}
+
+// ---------------------------------------------------------------------------
+// R-UNMARSHAL-OK
+
+var rUnmarshalOK = &Rule{
+	Name: "R-UNMARSHAL-OK",
+	Doc: "a payload that failed to unmarshal is never handed to a decoder: every read of the DynamicAny filled by types.UnmarshalAny is dominated by the err == nil edge of that very call. (UnmarshalAny allocates the message of the registered type before parsing the bytes, so on failure the message is non-nil, of the expected type, and half-read: decoders would accept it and dereference unset members instead of falling back to the opaque type.)",
+	Run: func(c *core.Ctx) {
+		n := 0
+		for _, fn := range c.P.HandFuncs() {
+			sx.EachInstr(fn, func(in ssa.Instruction) {
+				call, ok := in.(*ssa.Call)
+				if !ok {
+					return
+				}
+				f := sx.Callee(call)
+				if f == nil || f.Name() != "UnmarshalAny" || len(call.Call.Args) != 2 {
+					return
+				}
+				dst := call.Call.Args[1]
+				if mi, ok := dst.(*ssa.MakeInterface); ok {
+					dst = mi.X
+				}
+				al, ok := dst.(*ssa.Alloc)
+				if !ok {
+					c.Undecided(load.FnName(fn)+": UnmarshalAny destination", call.Pos(), "the destination of UnmarshalAny is not a local variable")
+					return
+				}
+				for _, r := range *al.Referrers() {
+					var readPos token.Pos
+					var readBlock *ssa.BasicBlock
+					switch x := r.(type) {
+					case *ssa.FieldAddr:
+						for _, u := range *x.Referrers() {
+							if ld, ok := u.(*ssa.UnOp); ok && ld.Op == token.MUL {
+								readPos, readBlock = ld.Pos(), ld.Block()
+								if !readPos.IsValid() {
+									readPos = x.Pos()
+								}
+							}
+						}
+					case *ssa.UnOp:
+						if x.Op == token.MUL {
+							readPos, readBlock = x.Pos(), x.Block()
+						}
+					}
+					if readBlock == nil {
+						continue
+					}
+					n++
+					ok := false
+					for _, l := range dominatingLits(readBlock) {
+						bin, isBin := l.V.(*ssa.BinOp)
+						if !isBin {
+							continue
+						}
+						var other ssa.Value
+						if bin.X == ssa.Value(call) {
+							other = bin.Y
+						} else if bin.Y == ssa.Value(call) {
+							other = bin.X
+						}
+						if other == nil || !sx.IsNil(other) {
+							continue
+						}
+						if (bin.Op == token.NEQ && l.Neg) || (bin.Op == token.EQL && !l.Neg) {
+							ok = true
+						}
+					}
+					c.Check(ok, load.FnName(fn)+": read of the unmarshalled payload", readPos, "only on the err == nil edge of UnmarshalAny",
+						"the message filled by types.UnmarshalAny is read on a path where the call may have failed: a corrupt payload with a registered type URL yields a non-nil, half-read message that decoders accept (then dereference unset members) instead of the opaque fallback")
+				}
+			})
+		}
+		c.Min("reads of unmarshalled payloads", n, 2)
+	},
+}
+
+// ---------------------------------------------------------------------------
+// R-SECONDARY-ATTACH
+
+var rSecondaryAttach = &Rule{
+	Name: "R-SECONDARY-ATTACH",
+	Doc: "a secondary error is always attached: under the assumption that both arguments are non-nil (nilness interpreter, infeasible paths pruned), every return of secondary.WithSecondaryError is a freshly allocated *withSecondaryError whose cause and secondaryError fields are the two parameters themselves, and every return of secondary.CombineErrors is the result of WithSecondaryError(err, otherErr) applied to its own two parameters - no path decides from the errors' contents (equivalence, text, type) to drop the secondary error",
+	Run: func(c *core.Ctx) {
+		p := c.P
+		ev := nilEval(c)
+		with, comb := p.Func("secondary", "WithSecondaryError"), p.Func("secondary", "CombineErrors")
+		if with == nil || comb == nil {
+			c.InternalErr("secondary.WithSecondaryError / CombineErrors", "anchor functions not found")
+			return
+		}
+		eachReturned := func(fn *ssa.Function, visit func(v ssa.Value, pos token.Pos)) int {
+			view := ev.Analyze(fn, []absint.Nil{absint.NonNil, absint.NonNil})
+			n := 0
+			for _, ret := range sx.Returns(fn) {
+				if view != nil && !view.Reachable(ret.Block()) {
+					continue
+				}
+				var walk func(v ssa.Value, d int)
+				walk = func(v ssa.Value, d int) {
+					if ph, ok := v.(*ssa.Phi); ok && d < 6 {
+						for i, e := range ph.Edges {
+							if view == nil || view.Reachable(ph.Block().Preds[i]) {
+								walk(e, d+1)
+							}
+						}
+						return
+					}
+					n++
+					visit(v, ret.Pos())
+				}
+				walk(ret.Results[0], 0)
+			}
+			return n
+		}
+		// WithSecondaryError
+		n1 := eachReturned(with, func(v ssa.Value, pos token.Pos) {
+			ok := false
+			why := "the returned value is " + describeVal(v)
+			if mi, isMI := v.(*ssa.MakeInterface); isMI {
+				if al, isAl := mi.X.(*ssa.Alloc); isAl && sx.IsNamed(al.Type(), load.ModPath+"/secondary", "withSecondaryError") {
+					got := map[string]ssa.Value{}
+					for _, r := range *al.Referrers() {
+						if fa, isFA := r.(*ssa.FieldAddr); isFA {
+							for _, u := range *fa.Referrers() {
+								if st, isSt := u.(*ssa.Store); isSt && st.Addr == ssa.Value(fa) {
+									got[fieldNameOf(fa)] = st.Val
+								}
+							}
+						}
+					}
+					ok = got["cause"] == ssa.Value(with.Params[0]) && got["secondaryError"] == ssa.Value(with.Params[1])
+					why = "the new wrapper's cause / secondaryError fields are not the two parameters themselves"
+				}
+			}
+			c.Check(ok, "secondary.WithSecondaryError: result for two non-nil errors", pos, "a fresh *withSecondaryError{cause: err, secondaryError: additionalErr}",
+				"with both errors non-nil, WithSecondaryError can return something other than a new wrapper holding both: "+why+" - the secondary error (its details, stack, safe strings) is dropped")
+		})
+		c.Check(n1 >= 1, "secondary.WithSecondaryError: reachable returns", with.Pos(), "at least one", "no return is reachable for two non-nil errors")
+		// CombineErrors
+		n2 := eachReturned(comb, func(v ssa.Value, pos token.Pos) {
+			call, isCall := v.(*ssa.Call)
+			ok := isCall && sx.Callee(call) == with && len(call.Call.Args) == 2 && call.Call.Args[0] == ssa.Value(comb.Params[0]) && call.Call.Args[1] == ssa.Value(comb.Params[1])
+			c.Check(ok, "secondary.CombineErrors: result for two non-nil errors", pos, "WithSecondaryError(err, otherErr)",
+				"with both errors non-nil, CombineErrors can return "+describeVal(v)+" instead of WithSecondaryError(err, otherErr): the secondary error is silently dropped on that path")
+		})
+		c.Check(n2 >= 1, "secondary.CombineErrors: reachable returns", comb.Pos(), "at least one", "no return is reachable for two non-nil errors")
+	},
+}
+
+// ---------------------------------------------------------------------------
+// R-ALWAYS-WRAPS
+
+// conditionalWrappers: exported constructors that are documented to return the error unchanged for some
+// non-error argument values. key: package-relative function name; value: the reason (checked by reading).
+var conditionalWrappers = map[string]string{}
+
+var rAlwaysWraps = &Rule{
+	Name: "R-ALWAYS-WRAPS",
+	Doc: "annotation is unconditional: for every exported wrapper constructor (a function whose returned error stores its error parameter in a field, found by dataflow), under the assumption that the wrapped error is non-nil (nilness interpreter, infeasible paths pruned), every reachable return is a freshly allocated wrapper or the result of another such constructor applied to the same error - never the error parameter itself. " +
+		"A constructor that inspects the error (equivalence with the reference, an existing annotation, its text) and decides to skip the annotation loses the mark / code / secondary error / hint the caller asked for. Passing the error through is accepted when no dominating condition (other than the nil test) is computed from the error: skipping for particular *non-error* arguments (no tags in the context, an empty format) is documented behaviour",
+	Run: func(c *core.Ctx) {
+		p := c.P
+		ev := nilEval(c)
+		wmemo := map[string]bool{}
+		type key struct {
+			fn *ssa.Function
+			pi int
+		}
+		memo := map[key]string{} // "" = always wraps; otherwise the reason it does not
+		var always func(fn *ssa.Function, pi int, depth int) string
+		always = func(fn *ssa.Function, pi int, depth int) string {
+			k := key{fn, pi}
+			if v, ok := memo[k]; ok {
+				return v
+			}
+			memo[k] = ""
+			if depth > 8 || fn.Blocks == nil {
+				memo[k] = "too deep"
+				return memo[k]
+			}
+			args := make([]absint.Nil, len(fn.Params))
+			for _, e := range errorParams(fn) {
+				args[e] = absint.NonNil
+			}
+			view := ev.Analyze(fn, args)
+			ei := errorResult(fn)
+			res := ""
+			for _, ret := range sx.Returns(fn) {
+				if view != nil && !view.Reachable(ret.Block()) {
+					continue
+				}
+				var walk func(v ssa.Value, at *ssa.BasicBlock, d int)
+				walk = func(v ssa.Value, at *ssa.BasicBlock, d int) {
+					if res != "" || d > 8 {
+						return
+					}
+					switch x := v.(type) {
+					case *ssa.Phi:
+						for i, e := range x.Edges {
+							if view == nil || view.Reachable(x.Block().Preds[i]) {
+								walk(e, x.Block().Preds[i], d+1)
+							}
+						}
+					case *ssa.ChangeInterface:
+						walk(x.X, at, d+1)
+					case *ssa.MakeInterface:
+						if _, isAl := x.X.(*ssa.Alloc); !isAl {
+							res = "returns a boxed " + describeVal(x.X) + " at " + p.Pos(ret.Pos())
+						}
+					case *ssa.Parameter:
+						if x == fn.Params[pi] {
+							// passing the error through is acceptable only when the decision does not look at the error
+							// (beyond its nilness): e.g. no tags in the context, an empty format.
+							for _, l := range dominatingLits(at) {
+								if isNilTestOf(l.V, fn.Params[pi]) {
+									continue
+								}
+								if dependsOnValue(l.V, fn.Params[pi], map[ssa.Value]bool{}, 0) {
+									res = "returns the error parameter itself at " + p.Pos(ret.Pos()) + " under a condition computed from that error (" + describeVal(l.V) + ")"
+								}
+							}
+						} else {
+							res = "returns parameter " + x.Name() + " at " + p.Pos(ret.Pos())
+						}
+					case *ssa.Const:
+						res = "returns nil at " + p.Pos(ret.Pos())
+					case *ssa.Call:
+						callee := sx.Callee(x)
+						if callee == nil || !p.InModule(callee) {
+							res = "returns the result of " + describeVal(x) + " at " + p.Pos(ret.Pos())
+							return
+						}
+						// which argument carries our parameter (possibly already wrapped)?
+						found := false
+						for j, a := range x.Call.Args {
+							if j < len(callee.Params) && sx.IsErrorType(callee.Params[j].Type()) && wrapsParam(p, callee, j, wmemo, 0) && derivesFrom(a, fn.Params[pi], 0) {
+								found = true
+								if r := always(callee, j, depth+1); r != "" {
+									res = "through " + load.FnName(callee) + ": " + r
+								}
+								break
+							}
+						}
+						if !found {
+							res = "returns the result of " + load.FnName(callee) + ", which does not wrap the error, at " + p.Pos(ret.Pos())
+						}
+					default:
+						res = "returns " + describeVal(v) + " at " + p.Pos(ret.Pos())
+					}
+				}
+				walk(ret.Results[ei], ret.Block(), 0)
+			}
+			memo[k] = res
+			return res
+		}
+		n := 0
+		for _, fn := range publicAPI(p) {
+			ei := errorResult(fn)
+			if ei < 0 {
+				continue
+			}
+			var wrapped []int
+			for _, pi := range errorParams(fn) {
+				if wrapsParam(p, fn, pi, wmemo, 0) {
+					wrapped = append(wrapped, pi)
+				}
+			}
+			if len(wrapped) == 0 {
+				continue
+			}
+			pi := wrapped[0]
+			n++
+			name := load.FnName(fn)
+			construct := fmt.Sprintf("%s(%s non-nil)", name, fn.Params[pi].Name())
+			why := always(fn, pi, 0)
+			if reason, tabled := conditionalWrappers[name]; tabled {
+				if why == "" {
+					c.Note("R-ALWAYS-WRAPS: tabled exception %s is stale (the constructor now always wraps)", name)
+				}
+				c.Ob(construct, fn.Pos(), true, "documented conditional annotation: "+reason)
+				continue
+			}
+			c.Check(why == "", construct, fn.Pos(), "always a new wrapper around the error", "for a non-nil error the constructor can skip the annotation: "+why)
+		}
+		c.Min("wrapper constructors", n, 60)
+	},
+}
+
+// isNilTestOf: v is `p == nil` / `p != nil`.
+func isNilTestOf(v ssa.Value, p *ssa.Parameter) bool {
+	bin, ok := v.(*ssa.BinOp)
+	if !ok || (bin.Op != token.EQL && bin.Op != token.NEQ) {
+		return false
+	}
+	return (bin.X == ssa.Value(p) && sx.IsNil(bin.Y)) || (bin.Y == ssa.Value(p) && sx.IsNil(bin.X))
+}
+
+// dependsOnValue: the computation of v uses p (operands, transitively; through phis, calls, loads of locals).
+func dependsOnValue(v ssa.Value, p ssa.Value, seen map[ssa.Value]bool, d int) bool {
+	if v == p {
+		return true
+	}
+	if v == nil || seen[v] || d > 40 {
+		return false
+	}
+	seen[v] = true
+	in, ok := v.(ssa.Instruction)
+	if !ok {
+		return false
+	}
+	for _, op := range in.Operands(nil) {
+		if *op != nil && dependsOnValue(*op, p, seen, d+1) {
+			return true
+		}
+	}
+	// a load of a local: whatever was stored into it
+	if ld, ok := v.(*ssa.UnOp); ok && ld.Op == token.MUL {
+		if al, ok := ld.X.(*ssa.Alloc); ok {
+			for _, r := range *al.Referrers() {
+				if st, ok := r.(*ssa.Store); ok && st.Addr == ssa.Value(al) && dependsOnValue(st.Val, p, seen, d+1) {
+					return true
+				}
+			}
+		}
+	}
+	return false
+}
+
+// derivesFrom: v is p, or a phi / interface change / module call over values deriving from p.
+func derivesFrom(v ssa.Value, p *ssa.Parameter, d int) bool {
+	if d > 6 {
+		return false
+	}
+	switch x := v.(type) {
+	case *ssa.Parameter:
+		return x == p
+	case *ssa.Phi:
+		for _, e := range x.Edges {
+			if derivesFrom(e, p, d+1) {
+				return true
+			}
+		}
+	case *ssa.ChangeInterface:
+		return derivesFrom(x.X, p, d+1)
+	case *ssa.Call:
+		for _, a := range x.Call.Args {
+			if derivesFrom(a, p, d+1) {
+				return true
+			}
+		}
+	case *ssa.MakeInterface:
+		if al, ok := x.X.(*ssa.Alloc); ok {
+			for _, r := range *al.Referrers() {
+				if fa, ok := r.(*ssa.FieldAddr); ok {
+					for _, u := range *fa.Referrers() {
+						if st, ok := u.(*ssa.Store); ok && st.Addr == ssa.Value(fa) && derivesFrom(st.Val, p, d+1) {
+							return true
+						}
+					}
+				}
+			}
+		}
+	}
+	return false
+}
+
+// ---------------------------------------------------------------------------
+// R-WALK-CURRENT
+
+var rWalkCurrent = &Rule{
+	Name: "R-WALK-CURRENT",
+	Doc: "a chain walk looks at the current layer: in every loop whose induction variable c starts at an error value e0 and advances with errbase.UnwrapOnce(c) (or Unwrap/Cause of c), no instruction inside the loop body uses e0 itself (the root of the walk) as an operand - every per-layer computation (mark, type assertion, method probe, comparison) takes c. Using the root inside the body repeats the outermost layer's answer at every depth, so matches under a wrapper are lost",
+	Run: func(c *core.Ctx) {
+		n := 0
+		for _, fn := range c.P.HandFuncs() {
+			for _, l := range naturalLoops(fn) {
+				for _, in := range l.Header.Instrs {
+					phi, ok := in.(*ssa.Phi)
+					if !ok {
+						break
+					}
+					if !sx.IsErrorType(phi.Type()) {
+						continue
+					}
+					var init ssa.Value
+					step := false
+					for i, e := range phi.Edges {
+						if l.Body[l.Header.Preds[i]] {
+							if call, ok := e.(*ssa.Call); ok {
+								if f := sx.Callee(call); f != nil && (f.Name() == "UnwrapOnce" || f.Name() == "Unwrap" || f.Name() == "Cause") && len(call.Call.Args) == 1 && call.Call.Args[0] == ssa.Value(phi) {
+									step = true
+								}
+							}
+						} else {
+							init = e
+						}
+					}
+					if !step || init == nil {
+						continue
+					}
+					if _, isConst := init.(*ssa.Const); isConst {
+						continue
+					}
+					n++
+					construct := load.FnName(fn) + ": walk over " + describeVal(init)
+					bad := false
+					for b := range l.Body {
+						for _, bi := range b.Instrs {
+							if bi == ssa.Instruction(phi) {
+								continue
+							}
+							for _, op := range bi.Operands(nil) {
+								if *op == init {
+									bad = true
+									c.Fail(construct, sx.InstrPos(bi), "inside the walking loop the root of the walk ("+describeVal(init)+") is used where the current layer is meant: the outermost layer's answer is repeated at every depth")
+								}
+							}
+						}
+					}
+					if !bad {
+						c.Ob(construct, phi.Pos(), true, "the loop body uses only the current layer")
+					}
+				}
+			}
+		}
+		c.Min("chain walks", n, 8)
+	},
+}
+
+// ---------------------------------------------------------------------------
+// R-MEMO
+
+var rMemo = &Rule{
+	Name: "R-MEMO",
+	Doc: "a memoised function stays a function of its inputs: wherever hand-written code looks a value up in package-level state (sync.Map.Load / a package-level map) and, on a miss, computes and stores it, the key of the store is the key of the lookup and the stored value is computed from that key ALONE - its backward slice, cut at the key, reaches no parameter, no free variable and no other lookup. " +
+		"A lossy key (a type's short name instead of the reflect.Type, a program counter one frame off the frame the result is computed from) makes two different inputs share one answer: two distinct error types get the same type mark, two packages the same domain. (No instance on the pinned tree: the identity- and domain-computing functions are not memoised; the rule is exercised by control mutants.)",
+	Run: func(c *core.Ctx) {
+		nFn, nMemo := 0, 0
+		for _, fn := range c.P.HandFuncs() {
+			nFn++
+			type site struct {
+				state string
+				key   ssa.Value
+				val   ssa.Value
+				in    ssa.Instruction
+			}
+			var loads, stores []site
+			sx.EachInstr(fn, func(in ssa.Instruction) {
+				switch x := in.(type) {
+				case *ssa.Call:
+					f := sx.Callee(x)
+					if f == nil || f.Signature.Recv() == nil || !sx.IsNamed(f.Signature.Recv().Type(), "sync", "Map") || len(x.Call.Args) < 2 {
+						return
+					}
+					g, ok := x.Call.Args[0].(*ssa.Global)
+					if !ok {
+						return
+					}
+					switch f.Name() {
+					case "Load":
+						loads = append(loads, site{g.Name(), stripIface(x.Call.Args[1]), nil, in})
+					case "Store":
+						if len(x.Call.Args) == 3 {
+							stores = append(stores, site{g.Name(), stripIface(x.Call.Args[1]), stripIface(x.Call.Args[2]), in})
+						}
+					case "LoadOrStore":
+						if len(x.Call.Args) == 3 {
+							loads = append(loads, site{g.Name(), stripIface(x.Call.Args[1]), nil, in})
+							stores = append(stores, site{g.Name(), stripIface(x.Call.Args[1]), stripIface(x.Call.Args[2]), in})
+						}
+					}
+				case *ssa.Lookup:
+					if g := globalOfLoad(x.X); g != nil {
+						loads = append(loads, site{g.Name(), stripIface(x.Index), nil, in})
+					}
+				case *ssa.MapUpdate:
+					if g := globalOfLoad(x.Map); g != nil {
+						stores = append(stores, site{g.Name(), stripIface(x.Key), stripIface(x.Value), in})
+					}
+				}
+			})
+			for _, st := range stores {
+				var ld *site
+				for i := range loads {
+					if loads[i].state == st.state {
+						ld = &loads[i]
+					}
+				}
+				if ld == nil || !reachesReturn(ld.in) {
+					continue // a registry write (nothing looked up is handed back), not a memo
+				}
+				nMemo++
+				construct := load.FnName(fn) + ": memo in " + st.state
+				if ld.key != st.key {
+					c.Fail(construct, sx.InstrPos(st.in), "the value is stored under a key ("+describeVal(st.key)+") that is not the key it is looked up with ("+describeVal(ld.key)+")")
+					continue
+				}
+				// backward slice of the stored value, cut at the key
+				var leak string
+				seen := map[ssa.Value]bool{}
+				var walk func(v ssa.Value, d int)
+				walk = func(v ssa.Value, d int) {
+					if v == nil || leak != "" || seen[v] || v == st.key || d > 60 {
+						return
+					}
+					seen[v] = true
+					switch x := v.(type) {
+					case *ssa.Parameter:
+						leak = "parameter " + x.Name()
+						return
+					case *ssa.FreeVar:
+						leak = "captured variable " + x.Name()
+						return
+					case *ssa.Global:
+						if x.Name() != st.state {
+							leak = "package-level variable " + x.Name()
+						}
+						return
+					case *ssa.Const, *ssa.Function, *ssa.Builtin:
+						return
+					}
+					in, ok := v.(ssa.Instruction)
+					if !ok {
+						return
+					}
+					if call, ok := v.(*ssa.Call); ok {
+						if f := sx.Callee(call); f != nil && f.Pkg != nil && f.Pkg.Pkg.Path() == "runtime" && strings.HasPrefix(f.Name(), "Caller") {
+							leak = "the call stack (runtime." + f.Name() + ")"
+							return
+						}
+					}
+					for _, op := range in.Operands(nil) {
+						if *op != nil {
+							walk(*op, d+1)
+						}
+					}
+					if ldv, ok := v.(*ssa.UnOp); ok && ldv.Op == token.MUL {
+						if al, ok := ldv.X.(*ssa.Alloc); ok {
+							for _, r := range *al.Referrers() {
+								if s2, ok := r.(*ssa.Store); ok && s2.Addr == ssa.Value(al) {
+									walk(s2.Val, d+1)
+								}
+							}
+						}
+					}
+				}
+				walk(st.val, 0)
+				c.Check(leak == "", construct, sx.InstrPos(st.in), "the memoised value is computed from the key alone",
+					"the memoised value also depends on "+leak+", which is not part of the key ("+describeVal(st.key)+"): different inputs that share a key get the first one's answer")
+			}
+		}
+		c.Ob("all hand-written functions", token.NoPos, true, fmt.Sprintf("%d functions inspected, %d memoisation sites", nFn, nMemo))
+		c.Min("functions inspected", nFn, 400)
+	},
+}
+
+func globalOfLoad(v ssa.Value) *ssa.Global {
+	if ld, ok := v.(*ssa.UnOp); ok && ld.Op == token.MUL {
+		if g, ok := ld.X.(*ssa.Global); ok {
+			return g
+		}
+	}
+	return nil
+}
+
+// reachesReturn: the value produced by the lookup instruction flows (extract, assertion, phi, conversion,
+// load of a local it was stored into) into a Return of its function.
+func reachesReturn(in ssa.Instruction) bool {
+	v, ok := in.(ssa.Value)
+	if !ok {
+		return false
+	}
+	seen := map[ssa.Value]bool{}
+	var walk func(v ssa.Value, d int) bool
+	walk = func(v ssa.Value, d int) bool {
+		if seen[v] || d > 12 || v.Referrers() == nil {
+			return false
+		}
+		seen[v] = true
+		for _, r := range *v.Referrers() {
+			switch x := r.(type) {
+			case *ssa.Return:
+				return true
+			case *ssa.Extract:
+				if x.Index == 0 && walk(x, d+1) {
+					return true
+				}
+			case *ssa.TypeAssert, *ssa.Phi, *ssa.ChangeInterface, *ssa.ChangeType, *ssa.Convert, *ssa.MakeInterface:
+				if walk(x.(ssa.Value), d+1) {
+					return true
+				}
+			case *ssa.Store:
+				if al, ok := x.Addr.(*ssa.Alloc); ok && x.Val == v {
+					for _, u := range *al.Referrers() {
+						if ld, ok := u.(*ssa.UnOp); ok && walk(ld, d+1) {
+							return true
+						}
+					}
+				}
+			}
+		}
+		return false
+	}
+	return walk(v, 0)
 }
